@@ -17,6 +17,16 @@ CHECKS = {
             "Every cell of the declared product is executed on the real integrator (two chained calls each) and the property's own formula is re-evaluated in longdouble from the library's stage slopes: explicit residuals to a derived rounding bound, implicit residuals to the documented Newton tolerance, the increment against h*sum(b_i k_i), splitting steps against the drift/kick composition read from the coefficient list and mask. The solver's answers are scripted exhaustively (truthful / forced failure / lying success) to show an unsolved stage system is never accepted.",
             "Finite alphabets (6 rhs programs with known Lipschitz bounds, 3 times, 6 signed steps, 3 dtypes); rounding bound 64*eps*((1+L)*scale+|f|); MINPACK/LAPACK trusted.",
             "DESIGN.md 4/C02"),
+    "C03": ("model_checking",
+            "explicit-state breadth-first search over operation histories (integrate(), integrate(T), dt=) on the real OdeSystem with canonical state hashing, reference direction/target model and per-call invariants in every state; plus buffer-growth cells",
+            "Every history up to the depth bound from every configuration (7 methods x 42 signed spans x 5 initial dt incl. oversized/negative x dtypes x 2 problems) is executed on the real object, rebuilt by replay; after every integrate the call's segment must start where the previous ended, move strictly monotonically to its target, not overshoot, end within 64 eps, stay paired/finite/of the initial dtype. States are deduplicated by a hash over all carried state (buffers, dt, status, integrator caches). Run-away loops are caught by a step budget.",
+            "Depth 2 (quick) / 3 (thorough); lattice times in {-2..2}; a call that raises is outside C03's premise and only counted.",
+            "DESIGN.md 4/C03"),
+    "C04": ("exploration",
+            "exhaustive product enumeration (fixed-step method x signed span x dt x dtype) with exact comparison against a reference time grid on a dyadic lattice; differential oracle between shifted / reflected runs",
+            "On the lattice every sum the loop forms is exact, so the recorded grid of each of the 23 fixed-step methods is compared bit-for-bit with the spec grid for all 42 spans and 3 step sizes; shift and reflection of an autonomous problem are compared between two real runs (rounding level for explicit/splitting, tolerance level otherwise) for all 32 methods.",
+            "Known finding F8 (implicit fixed-step methods grow the step) is pinned by a narrow signature; see known_findings.json.",
+            "DESIGN.md 4/C04"),
     "C10": ("exploration",
             "exhaustive product enumeration (method x Hamiltonian x state lattice x signed h x state layout / kick mask x entry point) with the Jacobian of the real one-step map as oracle",
             "For every cell the Jacobian M of the real one-step map is formed (exact columns for quadratic Hamiltonians, central differences otherwise) and M^T J M = J is checked; symmetric schemes are stepped h then -h; 4096-step energy runs compare the two halves; table identities (b_i a_ij + b_j a_ji = b_i b_j, palindromic splitting lists) are checked exactly. Masks are passed by the constructor and through OdeSystem.set_kick_vars.",
